@@ -149,6 +149,7 @@ def runKind (kind params : String) (f : AFrame) : Option (String × String) :=
     | some (t :: gs) => if gs.isEmpty || gs.length > 3 then none else r (decList t gs f) fmtListCommon
     | _ => none
   | "playlists" => r (decPlaylists f) fmtPlaylists
+  | "playlistsc" => r (decPlaylists f) fmtPlaylists
   | "stget" => r (decStickerGet f) hex
   | "stlist" => r (decStickerList f) fmtMap
   | "stfind" => r (decStickerFind f) fmtMap
@@ -241,6 +242,7 @@ def mayBeOk (kind params : String) (f : AFrame) : Bool :=
     | some t => countGroupsShape t.name l
     | none => false
   | "playlists" => playlistsShape l
+  | "playlistsc" => playlistsShape l
   | "stget" =>
     match l with
     | (k, v) :: _ => k == str "sticker" && hasEq v
@@ -376,6 +378,8 @@ def specOf (kind params record : String) : Option (List Spec.Line × Bool × Str
     | [] => none
   | "playlists" => (parseBytesPairs record).map fun rs =>
       (Spec.encPlaylists rs, false, fmtPlaylists (Spec.viewPlaylists rs))
+  | "playlistsc" => (parseBytesPairs record).map fun rs =>
+      (Spec.encPlaylists rs, false, fmtPlaylists (Spec.viewPlaylists rs))
   | "stget" =>
     match parseBytesPairs record with
     | some [(n, v)] => if Spec.stickerName n then some (Spec.encStickerGet n v, false, hex v) else none
@@ -450,6 +454,12 @@ def handle (toks : List String) (impl : String) : Verdict :=
         match runKind kind params f with
         | none => bad "kind"
         | some (model, tag) =>
+          -- build configuration `chrono` (kind `playlistsc`): an unparsable timestamp is an error there;
+          -- chrono's RFC 3339 parser is outside the model, so a `terr` where the model decodes is
+          -- accepted (totality and raw() are what is compared)
+          if kind == "playlistsc" && tag == "ok" && impl == "terr" then
+            { model := "terr", oracle := "ok", branch := "playlistsc-chrono-rejects" }
+          else
           { model, oracle := oracleSoup kind params f impl, branch := s!"{kind}-{tag}" }
       | _, _ => bad "fields"
     | ["typed", kind, "rec"] =>
